@@ -192,8 +192,8 @@ fn plan_for(id: &str, tier: Tier) -> Plan {
     // whole corpus, no monitor needed
     "C01" | "C02" | "C19" | "C06" | "C05" => {
       let mut gens = vec![
-        g(Family::Gen, full_cfg(Family::Gen), 1, 6, 1, "all single mappings of G-gen, no bound on held keys (6-key alphabet)"),
-        g(Family::Dist, full_cfg(Family::Dist), 1, 6, 1, "all single mappings of G-dist, no bound on held keys (6-key alphabet)"),
+        g(Family::Gen, full_cfg(Family::Gen), 1, if q { 4 } else { 6 }, 1, "all single mappings of G-gen (thorough: no bound on held keys over the 6-key alphabet)"),
+        g(Family::Dist, full_cfg(Family::Dist), 1, if q { 4 } else { 6 }, 1, "all single mappings of G-dist (thorough: no bound on held keys over the 6-key alphabet)"),
       ];
       if q {
         gens.push(g(Family::Gen, cfg_with(Family::Gen, &red_f, &[0, 1], true, Some(vec![0, 2, 3, 5, 7, 8])), 2, 3, 1, "all ordered pairs of reduced G-gen (finals A,CAPSLOCK,LEFTSHIFT; repeat Normal/Disabled; outputs [],[LEFTSHIFT,X],[A],[LEFTSHIFT,A],[LEFTSHIFT],[X,Y])"));
